@@ -422,9 +422,42 @@ def gen_geodseries():
 GENERATORS = [gen_math, gen_gridcodes, gen_utm, gen_geoid, gen_mask, gen_geodseries]
 
 
+def load_plugins():
+    """tools/translate.d/*.py: each defines functions `gen_<name>(T)` (T = this module, giving access to
+    preprocess / brace_array / func_array / ceval / write / digest / Missing ...).  One file per property so
+    that properties can be developed independently."""
+    import glob, importlib.util, types
+    me = sys.modules[__name__]
+    out = []
+    for f in sorted(glob.glob(os.path.join(os.path.dirname(os.path.abspath(__file__)), "translate.d", "*.py"))):
+        spec = importlib.util.spec_from_file_location("translate_d_" + os.path.basename(f)[:-3], f)
+        mod = importlib.util.module_from_spec(spec)
+        spec.loader.exec_module(mod)
+        for n in sorted(dir(mod)):
+            fn = getattr(mod, n)
+            if n.startswith("gen_") and isinstance(fn, types.FunctionType):
+                w = (lambda fn=fn: fn(me))
+                w.__name__ = n
+                out.append(w)
+    return out
+
+
+def gen_corr_all():
+    """lean/GeoVerif/Corr/All.lean: the list of correspondence handlers = every Corr/C*.lean present"""
+    cdir = os.path.join(os.path.dirname(OUT), "Corr")
+    mods = sorted(f[:-5] for f in os.listdir(cdir) if re.fullmatch(r"C\d+\.lean", f))
+    body = "".join(f"import GeoVerif.Corr.{m}\n" for m in mods)
+    body += "/- GENERATED by tools/translate.py (one handler per Corr/Cxx.lean); not committed. -/\nnamespace GeoVerif.Corr\nopen GeoVerif.Proto\n"
+    body += "def allHandlers : List (String → List String → List String → Option Verdict) :=\n  [" + ", ".join(f"{m}.handle" for m in mods) + "]\nend GeoVerif.Corr\n"
+    p = os.path.join(cdir, "All.lean")
+    if not os.path.exists(p) or open(p).read() != body:
+        open(p, "w").write(body)
+
+
 def main():
     failed = []
-    for g in GENERATORS:
+    gen_corr_all()
+    for g in GENERATORS + load_plugins():
         try:
             g()
         except Missing as e:
